@@ -39,7 +39,7 @@ def mandatory_bins(tier):
     return [
         "empty_dict", "delete_key", "delete_value", "set_value", "merged_group", "multi_block", "block_size_115", "block_size_116", "block_size_117",
         "single_entry_116", "single_entry_117", "single_entry_118_oversize", "oversize_first", "oversize_middle", "oversize_last",
-        "unrepresentable_refused_or_encoded", "extra_blocks", "content_len_0", "content_len_254", "key_0", "key_ffff", "vid_0", "vid_fe", "all_fit", "set_config_replaces_older_configuration_with_other_tags", "description_of_an_earlier_configuration_component_edited_by_the_caller", "extra_blocks_given_as_one_shot_iterator", "extra_blocks_given_as_generator", "contents_given_as_bytearray_or_memoryview", "dictionaries_encoded_by_concurrent_threads",
+        "unrepresentable_refused_or_encoded", "extra_blocks", "content_len_0", "content_len_254", "key_0", "key_ffff", "vid_0", "vid_fe", "all_fit", "set_config_replaces_older_configuration_with_other_tags", "description_of_an_earlier_configuration_component_edited_by_the_caller", "extra_blocks_given_as_one_shot_iterator", "extra_blocks_given_as_generator", "contents_given_as_bytearray_or_memoryview", "dictionaries_encoded_by_concurrent_threads", "extra_block_given_twice", "extra_block_identical_to_a_generated_block",
     ]
 
 
@@ -364,6 +364,21 @@ def run_shard(spec, ctx):
         extras = []
         if rng.random() < 0.2:
             extras = [rng.randbytes(rng.choice((1, 2, 117, 118, 255)) if rng.random() < 0.3 else rng.randrange(1, 256)) for _ in range(rng.randrange(1, 4))]
+            r_ = rng.random()
+            if r_ < 0.3:
+                # the same extra block twice (the very same bytes object, or an equal copy): both copies follow, in place
+                j_ = rng.randrange(len(extras))
+                extras.insert(rng.randrange(len(extras) + 1), extras[j_] if r_ < 0.15 else bytes(bytearray(extras[j_])))
+                ctx.bin("extra_block_given_twice")
+            elif r_ < 0.5 and conf:
+                # an extra block byte-identical to a block the dictionary itself produces (taken over from another package)
+                try:
+                    own = [bytes(b_) for b_ in ns.bf3file.conf_dict_to_tlv(dict(conf))]
+                except Exception:
+                    own = []
+                if own:
+                    extras.insert(rng.randrange(len(extras) + 1), rng.choice(own))
+                    ctx.bin("extra_block_identical_to_a_generated_block")
         if any(v is not None and c is not None for (k, v), c in conf.items()):
             ks = sorted((k, v) for (k, v), c in conf.items() if v is not None and c is not None)
             if any(a[0] == b[0] for a, b in zip(ks, ks[1:])):
